@@ -503,7 +503,7 @@ class Interp:
                 for a in it.args:
                     self.eval(fr, a)
                 return Other("index")
-            if fn in ("reversed", "sorted", "list", "tuple", "iter") and it.args:
+            if fn in ("reversed", "sorted", "list", "tuple", "iter", "islice", "itertools.islice") and it.args:
                 return self.iter_elem(fr, it.args[0])
         v = self.eval(fr, it)
         return self.elem_of(v)
@@ -719,6 +719,23 @@ class Interp:
     _e_SetComp = _e_ListComp
 
     def _e_DictComp(self, fr, e):
+        # {k: g(k) for k in ("a", "b", ...)}: one cell per literal key
+        if len(e.generators) == 1 and not e.generators[0].ifs and isinstance(e.generators[0].iter, (ast.Tuple, ast.List)) \
+                and e.generators[0].iter.elts and all(isinstance(x, ast.Constant) and isinstance(x.value, str) for x in e.generators[0].iter.elts):
+            g = e.generators[0]
+            saved = dict(fr.env)
+            cells = {}
+            ok = True
+            for x in g.iter.elts:
+                self.assign(fr, g.target, Const(x.value), None)
+                kv = self.eval(fr, e.key)
+                if not (isinstance(kv, Const) and isinstance(kv.value, str)):
+                    ok = False
+                    break
+                cells[kv.value] = self.eval(fr, e.value)
+            fr.env = saved
+            if ok:
+                return self.new_dict(cells, None)
         # {f(k): g(k, v) for k, v in D.items()} over the concrete keys of a heap dict: one cell per key
         if len(e.generators) == 1 and not e.generators[0].ifs:
             g = e.generators[0]
@@ -968,6 +985,12 @@ class Interp:
 
     # ------------------------------------------------------------------- call
     def _e_Call(self, fr, e):
+        # lazy iterators used as values (valid = islice(zip(a, b), n); for x, y in valid): a list of the element
+        fnm = norm(e.func).split(".")[-1]
+        if fnm in ("zip", "islice", "enumerate", "reversed", "iter") and (norm(e.func) in ("zip", "islice", "enumerate", "reversed", "iter", "itertools.islice")):
+            for a in e.args[1:] if fnm == "islice" else []:
+                self.eval(fr, a)
+            return self.new_list(self.iter_elem(fr, e))
         f = self.eval(fr, e.func)
         args: List[V] = []
         for a in e.args:
